@@ -285,3 +285,38 @@ async def readonly_temperature_refuses(pos: int, celsius: bool, t: float, use_as
         else:
             ensures("write-with-permission-emits-one-device-write", both(not refused, len(s.calls) == 1, s.calls[0][0] == pos, s.calls[0][1] == 2))
     cover("reached-end", True)
+
+
+class Delegated:
+    calls = []
+
+
+def rec_set(pos, length, newvalue):
+    Delegated.calls.append(("sync", pos, length, newvalue))
+
+
+async def rec_async_set(pos, length, newvalue):
+    Delegated.calls.append(("async", pos, length, newvalue))
+
+
+@harness(prop="C02", target="geckolib.driver.async_spastruct:GeckoAsyncStructure.async_set_value", name="structure_hands_every_write_to_the_device")
+async def structure_hands_every_write_to_the_device(block: bytes, pos: int, length: int, word: int, blocking_class: bool):
+    """between the accessor and the connection sits the structure: it passes every write on, exactly once and unchanged -- also
+    a write of the value the local copy already shows (the copy may be stale; only the spa's echo is authoritative)"""
+    from geckolib.driver.spastruct import GeckoStructure
+    from geckolib.driver.async_spastruct import GeckoAsyncStructure
+    requires(both(len(block) == 1024, 1 <= length, length <= 2, 0 <= pos, pos + length <= 1024, 0 <= word, word < 65536))
+    length = concrete_cases(length, 1, 2)
+    Delegated.calls = []
+    if blocking_class:
+        s = GeckoStructure(rec_set)
+        s.set_status_block(block)
+        s.set_value(pos, length, word)
+        ensures("passed-on-exactly-once-unchanged", Delegated.calls == [("sync", pos, length, word)])
+    else:
+        s = GeckoAsyncStructure(rec_set, rec_async_set)
+        s.set_status_block(block)
+        await s.async_set_value(pos, length, word)
+        s.set_value(pos, length, word)
+        ensures("passed-on-exactly-once-unchanged", Delegated.calls == [("async", pos, length, word), ("sync", pos, length, word)])
+    ensures("local-copy-untouched-until-the-spa-echoes", s.status_block == block)
